@@ -6,12 +6,11 @@ package light
 
 //@ import types github.com/tendermint/tendermint/types
 
-// reach(h): the header with hash h is the trust root or was reached from it by successful verification steps.
-// It is the least predicate closed under the `grants` clauses in this file (successful Verify/VerifyAdjacent calls and the
-// stored blocks); what a successful step guarantees is the proved postcondition of those functions.
+// reach(h): the header with hash h is the trust root or was reached from it by successful verification steps:
+// forward steps (Verify / VerifyAdjacent returned nil from a reached header) or backward hash links (VerifyBackwards
+// returned nil towards a reached header). It is the least predicate closed under the `grants` clauses in this file;
+// what a successful step guarantees is the proved postcondition of those functions.
 //@ spec func reach(h []byte) bool
-// back(h): the header with hash h is linked to a trusted header by a chain of LastBlockID hashes.
-//@ spec func back(h []byte) bool
 
 //@ func HeaderExpired
 //@   assigns nothing
@@ -46,6 +45,7 @@ package light
 //@   ensures newhdr: result == nil ==> newOK(untrustedHeader, untrustedVals, trustedHeader, now, maxClockDrift)
 //@   ensures chained: result == nil ==> untrustedHeader.Header.ValidatorsHash == trustedHeader.Header.NextValidatorsHash
 //@   ensures signed: result == nil ==> signedByOwn(untrustedHeader, untrustedVals, trustedHeader.Header.ChainID)
+//@   ensures wf: wfCached(untrustedVals)
 //@   grants closure: (result == nil && reach(types.Header.Hash(trustedHeader.Header))) ==> reach(types.Header.Hash(untrustedHeader.Header))
 
 // One skipping step: not expired, new header checks, at least the trust level of the TRUSTED set signed the new commit
@@ -61,6 +61,7 @@ package light
 //@     | trustTally(trustedVals, untrustedHeader.Commit, trustedHeader.Header.ChainID, k) * trustLevel.Denominator > totalPower(trustedVals, len(trustedVals.Validators)) * trustLevel.Numerator &&
 //@     | distinctSigners(trustedVals, untrustedHeader.Commit, k))
 //@   ensures signed: result == nil ==> signedByOwn(untrustedHeader, untrustedVals, trustedHeader.Header.ChainID)
+//@   ensures wf: wfCached(untrustedVals) && wfCached(trustedVals)
 
 // Backwards step: the older header is well formed, of the same chain, earlier in time, and is the block the trusted
 // header points back to.
@@ -70,7 +71,7 @@ package light
 //@   ensures chain: result == nil ==> untrustedHeader.ChainID == trustedHeader.ChainID
 //@   ensures time: result == nil ==> untrustedHeader.Time < trustedHeader.Time
 //@   ensures link: result == nil ==> types.Header.Hash(untrustedHeader) == trustedHeader.LastBlockID.Hash
-//@   grants closure: (result == nil && (reach(types.Header.Hash(trustedHeader)) || back(types.Header.Hash(trustedHeader)))) ==> back(types.Header.Hash(untrustedHeader))
+//@   grants closure: (result == nil && reach(types.Header.Hash(trustedHeader))) ==> reach(types.Header.Hash(untrustedHeader))
 
 // ---------------------------------------------------------------------------------------------------------------
 // Client: every header handed to the trusted store is reached by successful verification steps (C09)
@@ -79,8 +80,15 @@ package light
 //@ import store github.com/tendermint/tendermint/light/store
 //@ import log github.com/tendermint/tendermint/libs/log
 
+// lbOK: the shape every light block handled by the client has (what LightBlock.ValidateBasic establishes, plus the
+// validator set's cached total being unset or correct).
+//@ spec func lbOK(lb *types.LightBlock) bool = lb != nil && lb.SignedHeader != nil && lb.SignedHeader.Header != nil && lb.ValidatorSet != nil &&
+//@   | wfPowers(lb.ValidatorSet) && wfCached(lb.ValidatorSet) && (lb.SignedHeader.Commit != nil ==> len(lb.SignedHeader.Commit.Signatures) <= 2147483647)
+
+// ASSUMED: providers hand out validated light blocks (the http provider runs ValidateBasic on every block).
 //@ extern provider.Provider.LightBlock
 //@   assigns nothing
+//@   ensures ok: result1 == nil ==> lbOK(result0)
 // reports counts the evidence reports handed to providers.
 //@ ghost var reports int
 //@ extern provider.Provider.ReportEvidence
@@ -96,10 +104,15 @@ package light
 //@   assigns nothing
 //@ extern store.Store.Prune
 //@   assigns nothing
+// ASSUMED: the trusted store returns only blocks that were saved into it, and LightBlockBefore one below the height.
+// Every block saved is reached: the trust root by definition, every later one by the obligation at the call of
+// updateTrustedLightBlock in verifyLightBlock (induction over the client's history, not machine checked).
 //@ extern store.Store.LightBlock
 //@   assigns nothing
+//@   ensures ok: result1 == nil ==> (lbOK(result0) && reach(types.Header.Hash(result0.SignedHeader.Header)))
 //@ extern store.Store.LightBlockBefore
 //@   assigns nothing
+//@   ensures ok: result1 == nil ==> (lbOK(result0) && reach(types.Header.Hash(result0.SignedHeader.Header)) && result0.SignedHeader.Header.Height < arg0)
 //@ extern store.Store.FirstLightBlockHeight
 //@   assigns nothing
 //@ extern store.Store.LastLightBlockHeight
@@ -115,6 +128,7 @@ package light
 //@   ensures period: result == nil ==> trustedHeader.Header.Time + trustingPeriod > now
 //@   ensures newhdr: result == nil ==> newOK(untrustedHeader, untrustedVals, trustedHeader, now, maxClockDrift)
 //@   ensures signed: result == nil ==> signedByOwn(untrustedHeader, untrustedVals, trustedHeader.Header.ChainID)
+//@   ensures wf: wfCached(untrustedVals) && wfCached(trustedVals)
 //@   ensures rule: result == nil ==> ((untrustedHeader.Header.Height == trustedHeader.Header.Height + 1 && untrustedHeader.Header.ValidatorsHash == trustedHeader.Header.NextValidatorsHash) ||
 //@     | (untrustedHeader.Header.Height != trustedHeader.Header.Height + 1 && exists(k, 0, len(untrustedHeader.Commit.Signatures) + 1,
 //@     |   trustTally(trustedVals, untrustedHeader.Commit, trustedHeader.Header.ChainID, k) * trustLevel.Denominator > totalPower(trustedVals, len(trustedVals.Validators)) * trustLevel.Numerator &&
@@ -135,18 +149,21 @@ package light
 //@ func Client.examineConflictingHeaderAgainstTrace
 //@   trusted
 //@   assigns all(types.ValidatorSet.totalVotingPower)
+//@   ensures caches: forall(r, old(wfCached(cast(*types.ValidatorSet, r))) ==> wfCached(cast(*types.ValidatorSet, r)))
 //@ func Client.removeWitnesses
 //@   trusted
 //@   assigns c.witnesses, elems(provider.Provider)
 //@ func newLightClientAttackEvidence
 //@   trusted
-//@   assigns all(types.ValidatorSet.totalVotingPower)
+//@   assigns common.ValidatorSet.totalVotingPower, trusted.ValidatorSet.totalVotingPower
+//@   ensures caches: forall(r, old(wfCached(cast(*types.ValidatorSet, r))) ==> wfCached(cast(*types.ValidatorSet, r)))
 
 // A conflicting header the witness cannot back is benign (nil, nothing reported); one it can back is an attack:
 // the error is ErrLightClientAttack and evidence went out (to the witness, and to the primary when it can be built).
 //@ func Client.handleConflictingHeaders
 //@   requires errs: ErrLightClientAttack != nil
 //@   assigns all(types.ValidatorSet.totalVotingPower), reports
+//@   ensures caches: forall(r, old(wfCached(cast(*types.ValidatorSet, r))) ==> wfCached(cast(*types.ValidatorSet, r)))
 //@   ensures benign: result == nil ==> reports == old(reports)
 //@   ensures attack: result != nil ==> (result == ErrLightClientAttack && reports >= old(reports) + 1 && reports <= old(reports) + 2)
 
@@ -154,7 +171,104 @@ package light
 //@ func Client.detectDivergence
 //@   requires errs: ErrLightClientAttack != nil && ErrNoWitnesses != nil && ErrFailedHeaderCrossReferencing != nil
 //@   assigns all(types.ValidatorSet.totalVotingPower), reports, c.witnesses, elems(provider.Provider), c.providerMutex
+//@   ensures caches: forall(r, old(wfCached(cast(*types.ValidatorSet, r))) ==> wfCached(cast(*types.ValidatorSet, r)))
 //@   ensures long: result == nil ==> len(primaryTrace) >= 2
 //@   ensures matched: result == nil ==> recvdnil(errc)
 //@   loop 1 invariant started: !headerMatched
 //@   loop 2 invariant m: headerMatched ==> recvdnil(errc)
+//@   loop 2 invariant caches: forall(r, old(wfCached(cast(*types.ValidatorSet, r))) ==> wfCached(cast(*types.ValidatorSet, r)))
+
+// ---------------------------------------------------------------------------------------------------------------
+// Reaching the target
+
+//@ func Client.lightBlockFromPrimary
+//@   trusted
+//@   assigns c.primary, c.witnesses, elems(provider.Provider), c.providerMutex
+//@   ensures ok: result1 == nil ==> lbOK(result0)
+//@ func Client.findNewPrimary
+//@   trusted
+//@   assigns c.primary, c.witnesses, elems(provider.Provider), c.providerMutex
+//@   ensures ok: result1 == nil ==> lbOK(result0)
+
+// Sequential verification: the target is reached through adjacent steps only, and confirmed by the cross-check.
+//@ func Client.verifySequential
+//@   requires errs: ErrLightClientAttack != nil && ErrNoWitnesses != nil && ErrFailedHeaderCrossReferencing != nil
+//@   requires root: reach(types.Header.Hash(trustedBlock.SignedHeader.Header))
+//@   requires ok: lbOK(trustedBlock) && lbOK(newLightBlock) && trustedBlock.SignedHeader.Header.Height <= newLightBlock.SignedHeader.Header.Height
+//@   assigns c.primary, c.witnesses, elems(provider.Provider), c.providerMutex, reports, all(types.ValidatorSet.totalVotingPower)
+//@   ensures caches: forall(r, old(wfCached(cast(*types.ValidatorSet, r))) ==> wfCached(cast(*types.ValidatorSet, r)))
+//@   ensures reached: result == nil ==> reach(types.Header.Hash(newLightBlock.SignedHeader.Header))
+//@   loop 1 invariant r: reach(types.Header.Hash(verifiedBlock.SignedHeader.Header))
+//@   loop 1 invariant ok: lbOK(verifiedBlock) && lbOK(newLightBlock)
+//@   loop 1 invariant caches: forall(r, old(wfCached(cast(*types.ValidatorSet, r))) ==> wfCached(cast(*types.ValidatorSet, r)))
+//@   loop 1 invariant h: height <= newLightBlock.SignedHeader.Header.Height + 1
+//@   loop 1 invariant t: len(trace) >= 1
+//@   loop 1 invariant last: (height == newLightBlock.SignedHeader.Header.Height + 1 && len(trace) >= 2) ==> verifiedBlock == newLightBlock
+
+// Skipping verification (bisection with a pivot cache): every block put on the trace, and finally the target, is
+// reached from the trusted block by successful Verify steps.
+//@ func Client.verifySkipping
+//@   requires root: reach(types.Header.Hash(trustedBlock.SignedHeader.Header))
+//@   requires ok: lbOK(trustedBlock) && lbOK(newLightBlock)
+//@   assigns all(types.ValidatorSet.totalVotingPower)
+//@   ensures reached: result1 == nil ==> reach(types.Header.Hash(newLightBlock.SignedHeader.Header))
+//@   ensures long: result1 == nil ==> len(result0) >= 2
+//@   ensures fail: result1 != nil ==> len(result0) == 0
+//@   ensures caches: forall(r, old(wfCached(cast(*types.ValidatorSet, r))) ==> wfCached(cast(*types.ValidatorSet, r)))
+//@   loop 1 invariant r: reach(types.Header.Hash(verifiedBlock.SignedHeader.Header))
+//@   loop 1 invariant d: 0 <= depth && depth < len(blockCache)
+//@   loop 1 invariant c0: blockCache[0] == newLightBlock
+//@   loop 1 invariant ok: lbOK(verifiedBlock) && forall(i, 0, len(blockCache), lbOK(blockCache[i]))
+//@   loop 1 invariant caches: forall(r, old(wfCached(cast(*types.ValidatorSet, r))) ==> wfCached(cast(*types.ValidatorSet, r)))
+//@   loop 1 invariant t: len(trace) >= 1
+
+//@ func Client.verifySkippingAgainstPrimary
+//@   requires errs: ErrLightClientAttack != nil && ErrNoWitnesses != nil && ErrFailedHeaderCrossReferencing != nil
+//@   requires root: reach(types.Header.Hash(trustedBlock.SignedHeader.Header))
+//@   requires ok: lbOK(trustedBlock) && lbOK(newLightBlock)
+//@   assigns c.primary, c.witnesses, elems(provider.Provider), c.providerMutex, reports, all(types.ValidatorSet.totalVotingPower)
+//@   ensures caches: forall(r, old(wfCached(cast(*types.ValidatorSet, r))) ==> wfCached(cast(*types.ValidatorSet, r)))
+//@   ensures reached: result == nil ==> reach(types.Header.Hash(newLightBlock.SignedHeader.Header))
+
+// Backwards verification: every accepted older header is hash-linked to the one after it.
+//@ func Client.backwards
+//@   requires root: reach(types.Header.Hash(trustedHeader))
+//@   assigns c.primary, c.witnesses, elems(provider.Provider), c.providerMutex
+//@   ensures linked: result == nil ==> reach(types.Header.Hash(newHeader))
+//@   loop 1 invariant r: reach(types.Header.Hash(verifiedHeader))
+
+// clientOK: the client's cached latest trusted block is a reached block.
+//@ spec func clientOK(c *Client) bool = c.latestTrustedBlock != nil ==> (lbOK(c.latestTrustedBlock) && reach(types.Header.Hash(c.latestTrustedBlock.SignedHeader.Header)))
+
+// The only place a verified block enters the trusted store: it must be reached, whichever way was taken.
+//@ func Client.verifyLightBlock
+//@   requires errs: ErrLightClientAttack != nil && ErrNoWitnesses != nil && ErrFailedHeaderCrossReferencing != nil
+//@   requires latest: c.latestTrustedBlock != nil && clientOK(c)
+//@   requires ok: lbOK(newLightBlock)
+//@   assigns c.latestTrustedBlock, c.primary, c.witnesses, elems(provider.Provider), c.providerMutex, reports, all(types.ValidatorSet.totalVotingPower)
+//@   ensures inv: clientOK(c)
+//@   ensures reached: result == nil ==> reach(types.Header.Hash(newLightBlock.SignedHeader.Header))
+//@   atcall Client.updateTrustedLightBlock reached: reach(types.Header.Hash(arg1.SignedHeader.Header))
+
+//@ func Client.updateTrustedLightBlock
+//@   requires inv: clientOK(c)
+//@   requires new: lbOK(l) && reach(types.Header.Hash(l.SignedHeader.Header))
+//@   assigns c.latestTrustedBlock
+//@   ensures inv: clientOK(c)
+
+//@ func Client.TrustedLightBlock
+//@   assigns c.providerMutex
+//@   ensures ok: result1 == nil ==> (lbOK(result0) && reach(types.Header.Hash(result0.SignedHeader.Header)))
+
+// API level: a block returned without error is a reached block.
+//@ func Client.VerifyLightBlockAtHeight
+//@   requires errs: ErrLightClientAttack != nil && ErrNoWitnesses != nil && ErrFailedHeaderCrossReferencing != nil
+//@   requires latest: c.latestTrustedBlock != nil && clientOK(c)
+//@   ensures inv: clientOK(c)
+//@   ensures reached: result1 == nil ==> reach(types.Header.Hash(result0.SignedHeader.Header))
+
+//@ func Client.VerifyHeader
+//@   requires errs: ErrLightClientAttack != nil && ErrNoWitnesses != nil && ErrFailedHeaderCrossReferencing != nil
+//@   requires latest: c.latestTrustedBlock != nil && clientOK(c)
+//@   ensures inv: clientOK(c)
+//@   ensures reached: result == nil ==> reach(types.Header.Hash(newHeader))
